@@ -1,9 +1,12 @@
 import HopModel.Driver.C14
+import HopModel.Driver.C18
 import HopModel.Driver.C20
 
 def main (args : List String) : IO UInt32 := do
   match args with
   | "C14" :: rest => Driver.C14.main rest; return 0
+  | "C18" :: rest => Driver.C18.main rest; return 0
+  | "C18junk" :: rest => Driver.C18.main rest; return 0
   | "C20" :: rest => Driver.C20.main rest; return 0
   | _ =>
     IO.eprintln "usage: hopmodel <Cxx> [--spec] < ops.txt > model.txt"
